@@ -133,6 +133,9 @@ pub enum How {
     Gdef,
     /// `\let target = other macro name` (Mac only); the value is the index of the source name
     Let,
+    /// assign the value the target currently has (resolved when the program is built): an
+    /// assignment that changes nothing must still have its scope effect
+    Same,
 }
 
 #[derive(Clone, Copy, Debug, PartialEq, Eq, Hash)]
@@ -366,6 +369,13 @@ fn fresh(counter: &mut i64) -> i64 {
 }
 
 fn gen_value(t: Target, rng: &mut Rng, counter: &mut i64) -> (i64, How) {
+    if matches!(
+        t.kind,
+        Kind::Count | Kind::Dimen | Kind::Skip | Kind::Toks | Kind::IntParam | Kind::MathCode
+    ) && rng.chance(1, 6)
+    {
+        return (0, How::Same);
+    }
     match t.kind {
         Kind::Count => {
             if rng.chance(1, 5) {
@@ -680,6 +690,11 @@ pub fn build(ops: &[Op], targets: &[Target], dev: Deviation) -> Built {
                 if !has(t) {
                     continue;
                 }
+                let (v, how) = if how == How::Same {
+                    (b.cur(t), How::Set)
+                } else {
+                    (v, how)
+                };
                 if prefix_global {
                     text.push_str("\\global");
                 }
